@@ -73,7 +73,12 @@ def r06_1(prog, out):
                               "does not see the message until something else wakes it" % prog.short(bid))
                 continue
             esc = bi.cfg.escapes(e.bb, nb | empty)
-            if esc is None:
+            skipping = [x for x in prog.effects(bid) if x.touches(R.signal) and x.kind in NOTIFY_KINDS and x.chain and guarded_notify(prog, R, x) == "other"]
+            if esc is None and skipping:
+                x = skipping[0]
+                out.violation(key, prog.loc(x.chain[-1][0]), "the notify that follows the append is issued by %s, which can return without notifying for a reason that has "
+                              "nothing to do with the backlog or with who is listening" % prog.short(x.chain[-1][0]))
+            elif esc is None:
                 out.holds(key, bi.loc(e.bb), "every path from the append passes notify (guard: only `backlog.is_empty()`)")
             else:
                 out.violation(key, bi.loc(esc[-1]), "a path from the append returns without notifying the message signal", ["bb%d (%s)" % (x, bi.loc(x)) for x in esc][:8])
@@ -114,16 +119,52 @@ def r06_2(prog, out):
 
 
 def signal_kind(prog, R):
-    """notify method used for 'messages available' (outside the delete flow)"""
+    """notify method used for 'messages available' (outside the delete flow).  A `notify_one` that its own function skips
+    when no signal future is alive (a listener count kept by the future's constructor / Drop) stores no permit for a late
+    registrant: it is reported as "notify_one-if-listeners", which asks of the consumers what `notify_waiters` asks."""
     kinds = set()
     for bid, effs in R.appenders() + R.poppers():
         for e in prog.effects(bid):
             if e.touches(R.signal) and e.kind in NOTIFY_KINDS:
-                kinds.add(e.kind)
+                k = e.kind
+                if e.chain:
+                    hid, hbb = e.chain[-1][0], e.bb if not e.chain else None
+                    g = guarded_notify(prog, R, e)
+                    if g == "listeners":
+                        k = k + "-if-listeners"
+                kinds.add(k)
     return kinds
 
 
+def guarded_notify(prog, R, e):
+    """the notify of effect `e` sits in a function of its own (the observer's notify method) that can return without notifying:
+    "listeners" when the branch reads a counter that the signal future's constructor bumps, "other" for any other reason,
+    None when the function always notifies"""
+    A = prog.anchors
+    for fid, _cbb in e.chain:
+        pass
+    # the body that contains the notify call itself
+    fid = e.chain[-1][0] if e.chain else None
+    if fid is None:
+        return None
+    fi = prog.info(fid)
+    if fi is None:
+        return None
+    nbbs = {x.bb for x in prog.own_effects(fid) if x.touches(R.signal) and x.kind in NOTIFY_KINDS}
+    if not nbbs or fi.cfg.escapes(0, nbbs, after=False) is None:
+        return None
+    loads = {x.cells[-1] for x in prog.own_effects(fid) if x.kind == "atomic_load" and x.cells}
+    sig_ty = A.ty("MessagesAvailable")
+    for b in prog.facts.lib_bodies():
+        if b.impl_self and b.impl_self.startswith(sig_ty) or sig_ty in (b.local_ty(0) or ""):
+            for x in prog.effects(b.id):
+                if x.kind == "atomic_rmw" and x.cells and x.cells[-1] in loads:
+                    return "listeners"
+    return "other"
+
+
 @rule("C06", "R06.3", "notifier kind and consumer registration order are compatible (no lost wake-up window)", floor=2)
+@rule("C15", "R06.3", "notifier kind and consumer registration order are compatible (no lost wake-up window)", floor=2)
 def r06_3(prog, out):
     R = roles(prog)
     kinds = signal_kind(prog, R)
@@ -140,6 +181,9 @@ def r06_3(prog, out):
             key = "consumer:%s:wait#%d" % (cl.label, n)
             if kinds == {"notify_one"}:
                 out.holds(key, bi.loc(a.poll_bb), "notify_one stores a permit when nobody waits%s" % ("; the consumer also registers before pulling" if ordered else ""))
+            elif "notify_one-if-listeners" in kinds and not ordered:
+                out.violation(key, bi.loc(a.poll_bb), "the producers skip the notify while no signal future is alive (no stored permit) and this consumer creates its signal "
+                              "future after pulling: a message arriving between the empty pull and the wait is never signalled")
             elif ordered:
                 out.holds(key, bi.loc(a.poll_bb), "the signal future is created before the pull in each iteration, so a notification between pull and wait is kept")
             else:
